@@ -30,7 +30,7 @@ type scanner struct {
 }
 
 func (s *scanner) setPaging(query ast.Query) {
-	if query.GetSkip() == nil {
+	if query.GetSkip() == nil || *query.GetSkip() < 0 {
 		query.SetSkip(0)
 	}
 	s.targetOffset = *query.GetSkip()
@@ -236,7 +236,10 @@ func (scanner *sortingScanner) ScanCursor(tx *bbolt.Tx, cursorProvider ast.SetCu
 	// function instead of putting the comparison on the elements, so we don't need to store a context with each row
 	results := &llrb.Tree{}
 	isChildStore := scanner.store.IsChildStore()
-	maxResults := scanner.targetOffset + scanner.targetLimit
+	maxResults := int64(math.MaxInt64)
+	if scanner.targetLimit <= math.MaxInt64-scanner.targetOffset {
+		maxResults = scanner.targetOffset + scanner.targetLimit
+	}
 	for cursor.IsValid() {
 		current := cursor.Current()
 		cursor.Next()
